@@ -69,6 +69,8 @@ func MakeItem(r *rand.Rand, tag string, cfg *WorkCfg, phase string) *Item {
 				o.Streams, o.MaxEntries = 1, 1
 			case 1:
 				o.Streams, o.MaxEntries = 40, 300 // > 10 000 rows possible
+			case 2:
+				o.Streams, o.FarStream = 2+r.Intn(3), true // one stream far outside the range of a ClickHouse Date
 			}
 		}
 		lc := gen.NewLogCase(r, o)
@@ -101,6 +103,8 @@ func MakeItem(r *rand.Rand, tag string, cfg *WorkCfg, phase string) *Item {
 		it.Req = gen.RenderProfile(r, pc, r.Intn(2) == 0, false)
 		it.Single = true
 	}
+	// one client in six shuts its sending side as soon as the request is out and then waits for the answer
+	it.Req.HalfClose = n%6 == 3
 	return it
 }
 
@@ -478,6 +482,31 @@ func RunWorkload(seed int64, cfg WorkCfg, onPhase func(string)) *History {
 		}
 		send(0, it)
 		mode.Store("ok")
+		// the same for the other insert services (they differ in what else can trigger a flush), each followed by a
+		// push of the same kind once the database is back: that one must be answered too
+		for _, tk := range [][2]string{{"time_series", "logs"}, {"tempo_traces", "spans"}, {"profiles_input", "profile"}, {"samples_v3", "logs"}} {
+			if tk[1] == "spans" && cfg.NoSpans || tk[1] == "profile" && cfg.NoProfile {
+				continue
+			}
+			mk := func() *Item {
+				for {
+					it := MakeItem(r, "r", &cfg, "refuse:"+tk[0])
+					if it.Kind == tk[1] && it.Single {
+						return it
+					}
+				}
+			}
+			if onPhase != nil {
+				onPhase("refuse:" + tk[0])
+			}
+			failTable.Store(tk[0])
+			atomic.StoreInt32(&failLeft, 1)
+			mode.Store("fail-n")
+			led.RefuseNext(1)
+			send(0, mk())
+			mode.Store("ok")
+			send(1, mk())
+		}
 	}
 	led.AllOK.Store(true)
 	h.Blocks = led.Snapshot()
